@@ -23,10 +23,12 @@ class Tok:
         self.arg = arg
 
     def __await__(self):
+        if CUR['off']:      # quiescence: the harness is closing abandoned coroutines, nothing is scheduled any more
+            return
         yield self
 
 
-CUR = {'t': None, 'w': None}
+CUR = {'t': None, 'w': None, 'off': False}
 ABANDONED = []          # coroutines of killed threads are kept alive: their finally blocks must never run
 ASYNCIFIED = set()      # code objects of functions turned into coroutines by the transform / marked stubs
 NATIVE = {}             # function object -> async implementation (e.g. concurrent.futures.Future.result)
@@ -62,6 +64,30 @@ _CORO = type(_x)
 _x.close()
 
 
+class EndOfIteration(Exception):
+    """raised instead of StopIteration by async-ified __next__ methods (PEP 479)"""
+
+
+class aiter_:
+    """`for x in X:` in transformed code -> `async for x in aiter_(X):` so that a harness iterator whose
+    __next__ is an async-ified (marked) method can block the logical thread that drives it."""
+
+    def __init__(self, obj):
+        self.it = iter(obj)
+
+    def __aiter__(self):
+        return self
+
+    async def __anext__(self):
+        nxt = getattr(type(self.it), '__next__', None)
+        try:
+            if nxt is not None and getattr(nxt, '__code__', None) in ASYNCIFIED:
+                return await nxt(self.it)
+            return next(self.it)
+        except (StopIteration, EndOfIteration):
+            raise StopAsyncIteration
+
+
 class cm:
     """`with X:` in transformed code -> `async with cm(X):` (same enter/exit protocol)."""
 
@@ -94,6 +120,7 @@ class LThread:
         self.exc = None
         self.index = len(world.threads)
         self.points = 0
+        self.last_run = 0
 
     def enabled(self):
         s = self.status
@@ -153,6 +180,7 @@ class World:
         self.kill_at = {}       # pid -> number of scheduling points of that pid's threads after which it dies
         self.on_kill = None
         CUR['w'] = self
+        CUR['off'] = False
 
     def spawn(self, name, coro, pid=0):
         t = LThread(name, coro, self, pid)
@@ -177,7 +205,11 @@ class World:
                         others = sorted((t for t in en if t is not cur), key=self._rank)
                         return others[q] if 0 <= q < len(others) else others[0]
             return cur
-        others = sorted((t for t in en if t is not cur), key=self._rank)
+        if cur is not None and cur in en and cur.status.kind == 'yield':
+            # sleep(0): let the thread that has waited longest go first (a spinning pair must not starve a third)
+            others = sorted((t for t in en if t is not cur), key=lambda t: (t.last_run, self._rank(t)))
+        else:
+            others = sorted((t for t in en if t is not cur), key=self._rank)
         return others[0] if others else en[0]
 
     def kill(self, pid):
@@ -214,6 +246,7 @@ class World:
                 return 'stepbound'
             if self.trace is not None:
                 self.trace.append((t.name, t.status.kind, t.status.arg if t.status.kind == 'sp' else None, self.now))
+            t.last_run = self.steps
             t.step()
             if self.kill_at:
                 k = self.kill_at.get(t.pid)
@@ -228,6 +261,7 @@ class World:
             if not t.done:
                 ABANDONED.append(t.coro)
                 t.done = True
+        CUR['off'] = True
 
 
 def permutation(n, idx):
